@@ -7,7 +7,9 @@ ByteCases == {[kind |-> "bytes", comp |-> c, hl |-> h, seedmode |-> sm, bitstep 
                 c \in {"none", "brotli"}, h \in {8, 64}, sm \in {"none", "full", "partial"}}
 \* server misbehaviours for the header reads and for chunk data
 ServerCases == {[kind |-> "server", beh |-> b, target |-> t, k |-> 3] :
-                  b \in {"wrong", "status404", "status500", "page200", "extra", "empty", "short", "fin", "drop"}, t \in {"header1", "header2", "chunks"}}
+                  b \in {"wrong", "status404", "status500", "page200", "extra", "empty", "short", "fin", "drop",
+                        \* framing that lies (Content-Length of 2^62 / 2^63 / 1 MiB too much over the right bytes) or is merely unusual (none, chunked)
+                        "clhuge62", "clhuge63", "clplus", "clnone", "chunked"}, t \in {"header1", "header2", "chunks"}}
 PinCases == {[kind |-> "pin", pin |-> p] : p \in {"exact", "wrong_last", "wrong_first", "prefix32", "prefix1", "empty"}}
 Post == /\ TLCGet("stats").diameter >= 0
         /\ ndJsonSerialize(IOEnv.GEN_OUT, SetToSeq({[kind |-> "class", f |-> i] : i \in Inputs}) \o SetToSeq(ByteCases) \o SetToSeq(ServerCases)
